@@ -66,6 +66,10 @@ func runC19(rc *RunCtx, i int) {
 	spec.Compression = []string{"none", "snappy", "zstd"}[i%3]
 	spec.ZstdLevel = 1
 	spec.BufRows, spec.BufBytes, spec.RGRows, spec.RGBytes = 1000, 1<<20, 1000, 10<<20
+	bigSections := i%4 == 1 // filter sections of several KiB: larger than the smallest pooled buffers
+	if bigSections {
+		spec.FPR = 1e-9
+	}
 	if _, err := w.AddEngine(spec); err != nil {
 		rc.Violate(i, "scenario-failed", "", err.Error(), nil)
 		return
@@ -78,7 +82,11 @@ func runC19(rc *RunCtx, i int) {
 		}
 		return recs
 	}
-	if err := w.IngestSync(0, [][]*world.RowRec{mk(r.Range(6, 25))}); err != nil {
+	firstRows := r.Range(6, 25)
+	if bigSections {
+		firstRows = r.Range(60, 120)
+	}
+	if err := w.IngestSync(0, [][]*world.RowRec{mk(firstRows)}); err != nil {
 		rc.Violate(i, "scenario-failed", "", err.Error(), nil)
 		return
 	}
@@ -500,7 +508,17 @@ func framingMutation(r *core.Rand, b *c19Base) ([]byte, string) {
 	}
 	for t := r.Range(1, 2); t > 0; t-- {
 		bi := r.Intn(len(meta.DataBlocks))
-		switch r.Intn(13) {
+		switch r.Intn(14) {
+		case 13:
+			// one block's filter extent nested inside (or overlapping) another block's section
+			bj := r.Intn(len(meta.DataBlocks))
+			outer := meta.DataBlocks[bi]
+			if outer.BloomFilterSize > 2 {
+				off := outer.BloomFilterOffset + core.Pick(r, []int{0, 0, 1, outer.BloomFilterSize / 2})
+				meta.DataBlocks[bj].BloomFilterOffset = off
+				meta.DataBlocks[bj].BloomFilterSize = core.Pick(r, []int{1, 5, 16, 64, outer.BloomFilterSize / 2, outer.BloomFilterSize - (off - outer.BloomFilterOffset)})
+			}
+			desc = append(desc, fmt.Sprintf("block%d.filterExtent-inside-block%d", bj, bi))
 		case 10:
 			// the same block listed twice
 			meta.DataBlocks = append(meta.DataBlocks, meta.DataBlocks[bi])
